@@ -536,7 +536,17 @@ Definition exec1 (s : state) (t : tid) (held : list aid) (i : instr) : state * l
           (s, [ICleanup; IUnzombie])
         else if ref_eq s who (RObj self) then (s, [ICheckMark])
         else
-          let x1 := match ref_path s who with Some p => set_children x (aremove (a_children x) p) | None => x end in
+          (* the entry is removed only if it still refers to the very context that terminated *)
+          let x1 := match who with
+                    | RObj c => match ref_path s who with
+                                | Some p => match alookup (a_children x) p with
+                                            | Some c' => if Nat.eqb c c' then set_children x (aremove (a_children x) p) else x
+                                            | None => x
+                                            end
+                                | None => x
+                                end
+                    | _ => x
+                    end in
           (set_actor s self x1, [IBeh (MKilled who) (sp_killed (a_spec x)) (RecKilled who); ICheckMark])
     | ICheckMark =>
         match a_children x, a_state x with
